@@ -22,6 +22,7 @@ PROPS = {
         "explanation": "translation validation of solver answers by a certified checker",
     },
     "C02": {
+        "extra_props": ["C05fp"],
         "level": "translation_validation",
         "rule": "generated programs of the Horn fragment (structs of arity 0-2, 1-3 traits with 0-1 parameters, optionally #[coinductive], 2-7 impls: "
                 "concrete, structural with where-clause, blanket, repeated parameter, growing/polymorphic-recursive, concrete cycle edges) lowered by "
@@ -120,6 +121,7 @@ PROPS = {
         "explanation": "cross-validation of the two solvers by a certified comparator",
     },
     "C05": {
+        "extra_props": ["C05fp"],
         "level": "translation_validation",
         "rule": "150 generated programs: 1-2 #[auto] traits (optionally a #[coinductive] trait with cyclic impls), 3-6 structs with 0-2 fields forming rings and chains "
                 "(recursive and mutually recursive), explicit positive (plain and conditional) and negative auto-trait impls; 7 closed goals each (atoms, conjunctions, not); "
@@ -130,7 +132,10 @@ PROPS = {
                  "impl and all constituents hold, cycles satisfied'. decide_co_yes/no: every accepted Unique/No-solution is certified. Reuse of a solver instance is part of every run.",
         "note": "Trusted: Lean kernel, horn.rs data extraction (fields, impls, provided pairs), Stage-A theorems. Fragment: ADTs, u32/bool leaves; no tuples/refs/closures/phantom data. "
                 "Known findings found by this check (open): F14 SLG reuse after a coinductive cycle gives 'No possible solution' for a true goal; F15 SLG panic 'Negative subgoal had delayed_subgoals'. "
-                "The recursive solver's cache framework has its own model (C10).",
+                "The recursive solver's fixed-point/cache framework has an exact model (FixedPoint.lean, tied to the code by the C10 correspondence and, on the ground dependency-graph families of this check, "
+                "by an exact history line per program here); Props/C05fp.lean PROVES for every finite ground all-coinductive (resp. all-inductive) instance, any cycle structure, any history of plain solve calls: "
+                "the model returns, never panics, answers unique iff the goal is in the greatest (resp. least) fixed point, and leaves only correct entries in the cache "
+                "(coinductive_cycles_correct, inductive_cycles_correct, *_history_correct) - the second sentence of the property as a theorem. Not covered by that theorem: mixed cycles, goals with unknowns, interrupted runs, cache off.",
         "correspondence": "real Solver::solve (SLG, recursive; fresh and shared instances) vs Sem.evalGoal on autoProgram(data)",
         "explanation": "translation validation of solver answers by a certified checker",
     },
